@@ -350,9 +350,9 @@ PPL::Grid::remove_higher_space_dimensions(const dimension_type new_dimension) {
     gen_sys.set_space_dimension(new_dimension);
     if (generators_are_minimized()) {
       // Count the actual number of rows that are now redundant.
+      // (these are the rows of the removed, i.e., highest, dimensions).
       dimension_type num_redundant = 0;
-      const dimension_type num_old_gs = space_dim - new_dimension;
-      for (dimension_type row = 0; row < num_old_gs; ++row) {
+      for (dimension_type row = space_dim; row > new_dimension; --row) {
         if (dim_kinds[row] != GEN_VIRTUAL) {
           ++num_redundant;
         }
